@@ -230,6 +230,66 @@ impl BTree<(), VarLabel> {
 //%% end
 }
 
+impl VarLabel {
+//%% extract src/repr/var_label.rs :: impl VarLabel :: fn new_usize
+//%% @ret r
+//%% @spec
+        ensures r.0 == v,
+//%% end
+}
+/// largest label + 1 among the leaves
+pub open spec fn vmax(t: VTree) -> nat
+    decreases t
+{
+    match t { BTree::Leaf(v) => (v.0 + 1) as nat, BTree::Node(n, l, r) => if vmax(*l) >= vmax(*r) { vmax(*l) } else { vmax(*r) } }
+}
+/// std: usize::max
+#[verifier::external_body]
+pub fn verif_usize_max(a: usize, b: usize) -> (r: usize) ensures r == (if a >= b { a } else { b }), { unimplemented!() }
+impl VTree {
+// VTree::num_vars: the number of variables a vtree allocates = largest label + 1 (the defect fixed in ad19bb4 returned the largest label).
+// R-std: `usize::max(a, b)` is the stub verif_usize_max.
+//%% extract src/repr/vtree.rs :: impl VTree :: fn num_vars
+//%% @ret r
+//%% @rewrite 1 /usize::max\(/ => verif_usize_max(
+//%% @spec
+        requires vsmall(*self),
+        ensures r == vmax(*self),
+        decreases self,
+//%% end
+}
+/// every label fits: label + 1 does not overflow usize
+pub open spec fn vsmall(t: VTree) -> bool
+    decreases t
+{
+    match t { BTree::Leaf(v) => v.0 < usize::MAX, BTree::Node(n, l, r) => vsmall(*l) && vsmall(*r) }
+}
+/// vmax is what the name says: every leaf's label is below it, and some leaf's label + 1 is it
+pub proof fn lemma_vmax(t: VTree)
+    ensures
+        forall|i: int| 0 <= i < vleaves(t).len() ==> (#[trigger] vleaves(t)[i]).0 < vmax(t),
+        exists|i: int| 0 <= i < vleaves(t).len() && (#[trigger] vleaves(t)[i]).0 + 1 == vmax(t),
+    decreases t,
+{
+    match t {
+        BTree::Leaf(v) => { assert(vleaves(t)[0] == v); },
+        BTree::Node(n, l, r) => {
+            lemma_vmax(*l); lemma_vmax(*r);
+            let a = vleaves(*l); let b = vleaves(*r);
+            assert(vleaves(t) == a + b);
+            assert forall|i: int| 0 <= i < (a + b).len() implies (#[trigger] (a + b)[i]).0 < vmax(t) by {
+                if i < a.len() { assert((a + b)[i] == a[i]); } else { assert((a + b)[i] == b[i - a.len()]); }
+            }
+            if vmax(*l) >= vmax(*r) {
+                let i = choose|i: int| 0 <= i < a.len() && (#[trigger] a[i]).0 + 1 == vmax(*l);
+                assert((a + b)[i] == a[i]);
+            } else {
+                let i = choose|i: int| 0 <= i < b.len() && (#[trigger] b[i]).0 + 1 == vmax(*r);
+                assert((a + b)[i + a.len()] == b[i]);
+            }
+        },
+    }
+}
 // ---- vtrees built from a variable order: right_linear / left_linear / even_split (src/repr/vtree.rs) ----
 /// 2^k
 pub open spec fn p2(k: nat) -> nat decreases k { if k == 0 { 1 } else { 2 * p2((k - 1) as nat) } }
